@@ -213,6 +213,9 @@ func c19r5(c *core.Ctx) {
 		full := false
 		partial := token.NoPos
 		core.InspectNoLits(f.Body, func(x ast.Node) bool {
+			if call, ok := x.(*ast.CallExpr); ok && call.Pos() < app.Pos() && stdSearchOver(m, call, "graph.nodes") {
+				full = true
+			}
 			var body *ast.BlockStmt
 			isFull := false
 			switch l := x.(type) {
